@@ -703,3 +703,69 @@ mod tests {
         Ok(())
     }
 }
+
+/// Verification hooks: the frame codec and the two session drivers, reachable from outside the
+/// crate (only with `--cfg iroh_docs_verif`).
+#[cfg(iroh_docs_verif)]
+#[allow(missing_docs, missing_debug_implementations)]
+pub mod verif {
+    use super::*;
+
+    /// Public mirror of the codec's private message type.
+    #[derive(Debug, Clone)]
+    pub enum WireMessage {
+        Init {
+            namespace: NamespaceId,
+            message: crate::sync::ProtocolMessage,
+        },
+        Sync(crate::sync::ProtocolMessage),
+        Abort(AbortReason),
+    }
+
+    impl From<Message> for WireMessage {
+        fn from(m: Message) -> Self {
+            match m {
+                Message::Init { namespace, message } => WireMessage::Init { namespace, message },
+                Message::Sync(m) => WireMessage::Sync(m),
+                Message::Abort { reason } => WireMessage::Abort(reason),
+            }
+        }
+    }
+    impl From<WireMessage> for Message {
+        fn from(m: WireMessage) -> Self {
+            match m {
+                WireMessage::Init { namespace, message } => Message::Init { namespace, message },
+                WireMessage::Sync(m) => Message::Sync(m),
+                WireMessage::Abort(reason) => Message::Abort { reason },
+            }
+        }
+    }
+
+    /// `SyncCodec::encode`
+    pub fn codec_encode(item: WireMessage, dst: &mut BytesMut) -> anyhow::Result<()> {
+        SyncCodec.encode(item.into(), dst)
+    }
+
+    /// `SyncCodec::decode`
+    pub fn codec_decode(src: &mut BytesMut) -> anyhow::Result<Option<WireMessage>> {
+        Ok(SyncCodec.decode(src)?.map(Into::into))
+    }
+
+    /// `SyncCodec::decode_eof`
+    pub fn codec_decode_eof(src: &mut BytesMut) -> anyhow::Result<Option<WireMessage>> {
+        Ok(SyncCodec.decode_eof(src)?.map(Into::into))
+    }
+
+    /// The initiator side of a session.
+    pub async fn run_alice<R: AsyncRead + Unpin, W: AsyncWrite + Unpin>(
+        writer: &mut W,
+        reader: &mut R,
+        handle: &SyncHandle,
+        namespace: NamespaceId,
+        peer: PublicKey,
+    ) -> Result<SyncOutcome, ConnectError> {
+        super::run_alice(writer, reader, handle, namespace, peer).await
+    }
+
+    pub use super::BobState;
+}
